@@ -57,8 +57,8 @@ func runE2E(c *E2ECase) (*attemptState, []hist.ExpTx, *hist.Layout, error) {
 	defer ss.close()
 	st := ss.run(attempt{l: l, pacing: c.Pacing, plan: &fakemaster.ConnPlan{Chop: c.Chop}})
 	st.drainLib()
-	if st.panicked != "" {
-		return st, exp, l, fmt.Errorf("%v", st.streamErr)
+	if err := st.panicErr(); err != nil {
+		return st, exp, l, err
 	}
 	if !st.served {
 		return st, exp, l, fmt.Errorf("harness: dump request %+v was not servable", st.dumpReq)
